@@ -61,3 +61,27 @@ func showPieces(ps []string) string {
 	}
 	return sb.String()
 }
+
+func compileWith(f []string) (string, error) {
+	src := unhx(f[0])
+	if len(f) < 3 {
+		return pqlCompile(nil, src)
+	}
+	params := map[string]string{}
+	for i := 1; i+1 < len(f); i += 2 {
+		params[unhx(f[i])] = unhx(f[i+1])
+	}
+	return pqlCompile(params, src)
+}
+
+func showCompile(f []string) string {
+	sql, err := compileWith(f)
+	if err != nil {
+		return "ERR " + errPositions(err)
+	}
+	return "OK " + hx(sql)
+}
+
+func init() {
+	stages["compile"] = showCompile
+}
